@@ -32,6 +32,8 @@ pub enum PMsg {
     SelfExecute(u64),
     SelfClose(u64),
     SelfVote(u64, Vote),
+    /// the multisig proposes to itself (it has to be a member of its own group), attaching nothing
+    SelfPropose,
     /// pay the DEPOSIT token out of the multisig's own account (C15 worlds only)
     SpendDep { rcpt: String, amount: u128 },
 }
@@ -150,6 +152,8 @@ pub struct Override {
     pub period: Duration,
     pub executor: Option<ExecCfg>,
     pub deposit: bool,
+    /// force the kind of deposit token (None: drawn)
+    pub dep_cw20: Option<bool>,
 }
 
 #[derive(Clone, Debug, PartialEq)]
@@ -285,6 +289,11 @@ impl World {
             PMsg::SelfExecute(id) => wasm_exec(&self.ms, &cw3_fixed_multisig::msg::ExecuteMsg::Execute { proposal_id: *id }, vec![]),
             PMsg::SelfClose(id) => wasm_exec(&self.ms, &cw3_fixed_multisig::msg::ExecuteMsg::Close { proposal_id: *id }, vec![]),
             PMsg::SelfVote(id, v) => wasm_exec(&self.ms, &cw3_fixed_multisig::msg::ExecuteMsg::Vote { proposal_id: *id, vote: *v }, vec![]),
+            PMsg::SelfPropose => wasm_exec(
+                &self.ms,
+                &cw3_fixed_multisig::msg::ExecuteMsg::Propose { title: "follow-up".into(), description: "proposed by the multisig itself".into(), msgs: vec![], latest: None },
+                vec![],
+            ),
             PMsg::SpendDep { rcpt, amount } => match &self.dep {
                 Some(Dep { token: DepTok::Native(d), .. }) => BankMsg::Send { to_address: rcpt.clone(), amount: vec![coin(*amount, d.clone())] }.into(),
                 Some(Dep { token: DepTok::Cw20(t), .. }) => wasm_exec(t, &cw20::Cw20ExecuteMsg::Transfer { recipient: rcpt.clone(), amount: Uint128::new(*amount) }, vec![]),
@@ -616,7 +625,11 @@ impl Ms {
                         _ => h.rng.range(2, 500) as u128,
                     };
                     let refund_failed = h.rng.chance(2, 3);
-                    if h.rng.chance(1, 2) {
+                    let native = match over.as_ref().and_then(|o| o.dep_cw20) {
+                        Some(c) => !c,
+                        None => h.rng.chance(1, 2),
+                    };
+                    if native {
                         w.dep = Some(Dep { amount, token: DepTok::Native(DEP_DENOM.into()), refund_failed });
                         dep_msg = Some(cw3::UncheckedDepositInfo {
                             amount: Uint128::new(amount),
@@ -657,6 +670,14 @@ impl Ms {
                     _ => {
                         h.out.count("instantiate_rejected");
                         return None;
+                    }
+                }
+                if h.idx % 4 == 1 && over.is_none() {
+                    // the multisig is registered as a listener of its own group: every membership change is
+                    // delivered to it (MemberChangedHook) and must leave the proposals alone
+                    let r = w.c.exec(&gadmin, &g, &cw4_group::msg::ExecuteMsg::AddHook { addr: w.ms.to_string() }, &[]);
+                    if r.is_ok() {
+                        h.out.count("flex_worlds_where_the_multisig_listens_to_its_group");
                     }
                 }
                 // cw20 deposit: everybody pre-approves the multisig generously (changed later by SetAllowance)
@@ -1794,6 +1815,17 @@ impl Ms {
                 }) {
                     return false;
                 }
+                // every proposal that exists was created by a Propose call whose payment the ledger above has seen
+                let last: Res<cw3::ProposalListResponse> = w.c.query(&w.ms, &cw3_fixed_multisig::msg::QueryMsg::ReverseProposals { start_before: None, limit: Some(1) });
+                if let Res::Ok(l) = last {
+                    let newest = l.proposals.first().map(|p| p.id).unwrap_or(0);
+                    h.out.oracle_checks += 1;
+                    if !h.check(newest == w.props.len() as u64, "C15/propose/proposal-exists-that-nobody-paid-a-deposit-for", || {
+                        format!("newest proposal on the multisig is {newest} ({:?}), but only {} Propose calls succeeded and paid", l.proposals.first().map(|p| (&p.proposer, &p.deposit)), w.props.len())
+                    }) {
+                        return false;
+                    }
+                }
                 // cw20 deposit: allowance or balance below D => Propose fails (checked through the ledger above);
                 if let (Op::Propose { .. }, DepTok::Cw20(t), true) = (op, &dep.token, ok) {
                     let _ = t;
@@ -1869,6 +1901,8 @@ enum Act {
     Do(usize, Op),
     /// by group admin
     Group(Vec<(usize, u64)>, Vec<usize>),
+    /// by group admin: the multisig itself joins its group with this weight
+    GroupSelf(u64),
     Adv(u64),
     Sink(bool),
     ByStranger(Op),
@@ -1890,6 +1924,7 @@ impl Ms {
                     w.gadmin.clone(),
                     Op::GroupUpdate { add: add.into_iter().map(|(i, x)| (pl.actors[i].clone(), x)).collect(), remove: rem.into_iter().map(|i| pl.actors[i].clone()).collect() },
                 ),
+                Act::GroupSelf(x) => (w.gadmin.clone(), Op::GroupUpdate { add: vec![(w.ms.to_string(), x)], remove: vec![] }),
                 Act::Adv(n) => {
                     w.c.advance(n, n * 5);
                     (w.c.owner.to_string(), Op::SinkFail(w.sink_failing))
@@ -1912,7 +1947,7 @@ impl Ms {
             // group changes after / in the same block as creation (flex)
             ("C06", 0) | ("C06", 1) => {
                 let rule = if h.idx == 0 { Rule::Pct(510_000_000_000_000_000) } else { Rule::Quorum(500_000_000_000_000_000, 400_000_000_000_000_000) };
-                let over = Override { kind: Kind::Flex, voters: vec![(pool().actors[0].clone(), 3), (pool().actors[1].clone(), 5), (pool().actors[2].clone(), 2), (pool().actors[3].clone(), 0)], rule, period: Duration::Height(30), executor: None, deposit: false };
+                let over = Override { kind: Kind::Flex, voters: vec![(pool().actors[0].clone(), 3), (pool().actors[1].clone(), 5), (pool().actors[2].clone(), 2), (pool().actors[3].clone(), 0)], rule, period: Duration::Height(30), executor: None, deposit: false, dep_cw20: None };
                 self.play(
                     h,
                     over,
@@ -1946,7 +1981,7 @@ impl Ms {
             // re-entrancy, failed dispatch + retry, repeated execute
             ("C05", 0) | ("C05", 1) => {
                 let kind = if h.idx == 0 { Kind::Fixed } else { Kind::Flex };
-                let over = Override { kind, voters: vec![(pool().actors[0].clone(), 3), (pool().actors[1].clone(), 2)], rule: Rule::Count(3), period: Duration::Height(20), executor: None, deposit: false };
+                let over = Override { kind, voters: vec![(pool().actors[0].clone(), 3), (pool().actors[1].clone(), 2)], rule: Rule::Count(3), period: Duration::Height(20), executor: None, deposit: false, dep_cw20: None };
                 self.play(
                     h,
                     over,
@@ -1974,9 +2009,57 @@ impl Ms {
                 );
                 true
             }
+            // cw20 deposit, the multisig is a member of its own group and one of its proposals proposes again:
+            // the nested proposal can only exist if its deposit was pulled (it cannot be: no self-allowance)
+            ("C15", 0) | ("C15", 1) => {
+                let over = Override { kind: Kind::Flex, voters: vec![(pool().actors[0].clone(), 3), (pool().actors[1].clone(), 2)], rule: Rule::Count(3), period: Duration::Height(20), executor: None, deposit: true, dep_cw20: Some(true) };
+                self.play(
+                    h,
+                    over,
+                    vec![
+                        Act::Adv(1),
+                        Act::GroupSelf(h.idx),
+                        Act::Adv(1),
+                        Act::Do(0, prop_op(vec![ping(1, 0, hist), PMsg::SelfPropose])), // passes at once
+                        Act::Do(0, prop_op(vec![ping(2, 0, hist)])),
+                        Act::ByStranger(Op::Execute { id: 1 }),
+                        Act::ByStranger(Op::Execute { id: 2 }),
+                        Act::Do(1, prop_op(vec![PMsg::SelfPropose, PMsg::SelfPropose])),
+                        Act::Do(0, vote(3, Vote::Yes)),
+                        Act::ByStranger(Op::Execute { id: 3 }),
+                        Act::Adv(30),
+                        Act::ByStranger(Op::Close { id: 1 }),
+                        Act::ByStranger(Op::Execute { id: 1 }),
+                    ],
+                );
+                true
+            }
+            // the group shrinks and, in the same block, a proposal is opened: its total is the small new one while
+            // the old heavy weights may still vote. Voted down, it must stay down whatever is cast afterwards
+            ("C05", 4) | ("C05", 5) => {
+                let rule = if h.idx == 4 { Rule::Pct(510_000_000_000_000_000) } else { Rule::Quorum(500_000_000_000_000_000, 400_000_000_000_000_000) };
+                let over = Override { kind: Kind::Flex, voters: vec![(pool().actors[0].clone(), 5), (pool().actors[1].clone(), 5), (pool().actors[2].clone(), 1)], rule, period: Duration::Height(20), executor: None, deposit: false, dep_cw20: None };
+                self.play(
+                    h,
+                    over,
+                    vec![
+                        Act::Adv(1),
+                        Act::Group(vec![(0, 1), (1, 1)], vec![]),
+                        Act::Do(2, prop_op(vec![ping(1, 0, hist)])), // total 3, yes 1
+                        Act::Adv(1),
+                        Act::Do(0, vote(1, Vote::No)),  // weight 5 from the snapshot: voted down
+                        Act::Do(1, vote(1, Vote::Yes)), // weight 5: too late
+                        Act::ByStranger(Op::Execute { id: 1 }),
+                        Act::Adv(25),
+                        Act::ByStranger(Op::Execute { id: 1 }),
+                        Act::ByStranger(Op::Close { id: 1 }),
+                    ],
+                );
+                true
+            }
             // executor = Member: membership changes in the SAME block as Execute
             ("C05", 2) | ("C05", 3) => {
-                let over = Override { kind: Kind::Flex, voters: vec![(pool().actors[0].clone(), 3), (pool().actors[1].clone(), 2), (pool().actors[2].clone(), 1)], rule: Rule::Count(3), period: if h.idx == 2 { Duration::Height(20) } else { Duration::Time(600) }, executor: Some(ExecCfg::Member), deposit: false };
+                let over = Override { kind: Kind::Flex, voters: vec![(pool().actors[0].clone(), 3), (pool().actors[1].clone(), 2), (pool().actors[2].clone(), 1)], rule: Rule::Count(3), period: if h.idx == 2 { Duration::Height(20) } else { Duration::Time(600) }, executor: Some(ExecCfg::Member), deposit: false, dep_cw20: None };
                 self.play(
                     h,
                     over,
@@ -2009,7 +2092,7 @@ impl Ms {
                     _ => Rule::Quorum(600_000_000_000_000_000, 400_000_000_000_000_000),
                 };
                 let kind = if h.idx == 1 { Kind::Flex } else { Kind::Fixed };
-                let over = Override { kind, voters: vec![(pool().actors[0].clone(), 0), (pool().actors[1].clone(), 4), (pool().actors[2].clone(), 3), (pool().actors[3].clone(), 3)], rule, period: Duration::Height(10), executor: None, deposit: false };
+                let over = Override { kind, voters: vec![(pool().actors[0].clone(), 0), (pool().actors[1].clone(), 4), (pool().actors[2].clone(), 3), (pool().actors[3].clone(), 3)], rule, period: Duration::Height(10), executor: None, deposit: false, dep_cw20: None };
                 self.play(
                     h,
                     over,
@@ -2041,7 +2124,7 @@ impl Ms {
             // the group behind a count threshold loses all its weight; a remaining (weightless) member proposes
             ("C03", 6) | ("C03", 7) => {
                 let rule = if h.idx == 6 { Rule::Count(2) } else { Rule::Count(1) };
-                let over = Override { kind: Kind::Flex, voters: vec![(pool().actors[0].clone(), 2), (pool().actors[1].clone(), 1), (pool().actors[2].clone(), 0)], rule, period: Duration::Height(10), executor: None, deposit: false };
+                let over = Override { kind: Kind::Flex, voters: vec![(pool().actors[0].clone(), 2), (pool().actors[1].clone(), 1), (pool().actors[2].clone(), 0)], rule, period: Duration::Height(10), executor: None, deposit: false, dep_cw20: None };
                 self.play(
                     h,
                     over,
@@ -2070,7 +2153,7 @@ impl Ms {
                     _ => Rule::Quorum(555_555_555_555_555_555, 666_666_666_666_666_666),
                 };
                 let kind = if h.idx == 3 { Kind::Fixed } else { Kind::Flex };
-                let over = Override { kind, voters: vec![(pool().actors[0].clone(), 1_000_000_000), (pool().actors[1].clone(), 999_999_998), (pool().actors[2].clone(), 1_000_000_002)], rule, period: Duration::Height(10), executor: None, deposit: false };
+                let over = Override { kind, voters: vec![(pool().actors[0].clone(), 1_000_000_000), (pool().actors[1].clone(), 999_999_998), (pool().actors[2].clone(), 1_000_000_002)], rule, period: Duration::Height(10), executor: None, deposit: false, dep_cw20: None };
                 self.play(
                     h,
                     over,
@@ -2136,6 +2219,7 @@ impl Monitor for Ms {
             ],
             "C06" => vec![
                 "flex_worlds_with_more_than_ten_group_members",
+                "flex_worlds_where_the_multisig_listens_to_its_group",
                 "point_queries_compared_with_listings",
                 "directed_scenarios_completed",
                 "histories_fixed",
@@ -2151,6 +2235,7 @@ impl Monitor for Ms {
                 "proposals_created_in_a_block_with_an_earlier_group_change",
             ],
             _ => vec![
+                "directed_scenarios_completed",
                 "deposits_taken",
                 "deposits_returned_on_execute",
                 "deposits_returned_on_close",
